@@ -230,17 +230,20 @@ theorem sub_cmdPhaseO (cfg : Cfg) (o : OState) : Sub (cmdPhaseO cfg o).base o.ba
   · exact sub_drain o.base x h
   · exact mem_drain_exec o.base x (mem_merge_int _ _ x h)
 
-theorem abs_enqueueU (o : OState) (c : Nat) (u : Bool) (v : Int) (n : Nat) :
-    abs (enqueueU o c u v n).base = abs o.base := by
+theorem abs_enqueueU (o : OState) (c : Nat) (v : Int) (n : Nat) :
+    abs (enqueueU o c false v n).base = abs o.base := by
   unfold enqueueU
-  simp only []
-  split <;> exact abs_eq rfl rfl rfl
+  exact abs_eq rfl rfl rfl
+
+theorem abs_enqueueU_user (cfg : Cfg) (o : OState) (c : Nat) (v : Int) (n : Nat) :
+    abs (enqueueU o c true v n).base = Act.apply cfg (.userReq (c / 2)) (abs o.base) := by
+  unfold enqueueU
+  simp [abs, Act.apply, State.emgr]
 
 theorem sub_enqueueU (o : OState) (c : Nat) (u : Bool) (v : Int) (n : Nat) :
     Sub (enqueueU o c u v n).base o.base := by
   unfold enqueueU
-  simp only []
-  split <;> exact Sub.of_eq rfl rfl
+  exact Sub.of_eq rfl rfl
 
 /-- interpreter items of the extended model that cannot make a command raise -/
 def ItemO.quiet : ItemO → Prop
@@ -259,7 +262,7 @@ theorem interpItemsO_ref {cfg : Cfg} {pm : Perm} (hev : pm.ev = true) (items : L
       cases it with
       | ev e => exact Reach.act (.ev e) hev rfl
       | cmd c a => exact Reach.of_eq (abs_enqueue o.base c false a).symm
-    | u c v n => exact Reach.of_eq (abs_enqueueU o c false v n).symm
+    | u c v n => exact Reach.of_eq (abs_enqueueU o c v n).symm
 
 theorem interpItemsO_started (items : List ItemO) (o : OState) :
     (items.foldl interpItemO o).base.core.started = o.base.core.started := by
@@ -273,14 +276,14 @@ theorem interpItemsO_started (items : List ItemO) (o : OState) :
       cases it with
       | ev e => cases e <;> simp [interpItemO, interpItem, Core.event] <;> split <;> rfl
       | cmd c a => simp [interpItemO, interpItem, enqueue]
-    | u c v n => unfold interpItemO enqueueU; simp only []; split <;> rfl
+    | u c v n => rfl
 
 theorem interpItemO_trk (o : OState) (it : ItemO) :
     (interpItemO o it).base.emgr.tracking = o.base.emgr.tracking := by
   cases it with
   | m it => exact interpItem_trk o.base it
   | u c v n =>
-    have h := abs_enqueueU o c false v n
+    have h := abs_enqueueU o c v n
     simp only [abs, A.mk.injEq] at h
     exact h.2.2
 
@@ -309,7 +312,9 @@ def TickInO.okAt (o : OState) (t : TickInO) : Prop :=
   (t.readFail = true → o.base.core.started = true) ∧ ∀ it ∈ t.items, it.quiet
 
 theorem setError_started (cfg : Cfg) (c : Core) : (c.setError cfg).started = c.started := by
-  unfold Core.setError; split <;> rfl
+  unfold Core.setError; split
+  · rfl
+  · split <;> rfl
 
 theorem tickReadO_ref {cfg : Cfg} {pm : Perm} (o : OState) (t : TickInO)
     (h : pm.err = true ∨ (t.readFail = true → o.base.core.started = true)) :
@@ -436,7 +441,7 @@ theorem stepO_ref {cfg : Cfg} (o : OState) (op : OpO) (hop : op.okAt o) (hq : Al
     · simp only [stepO, hv, Bool.false_eq_true, if_false]
       exact ⟨Reach.refl _, hq⟩
   | userU c v n =>
-    exact ⟨Reach.of_eq (abs_enqueueU o c true v n).symm, hq.sub (sub_enqueueU o c true v n)⟩
+    exact ⟨Reach.act (.userReq (c / 2)) trivial (abs_enqueueU_user cfg o c v n), hq.sub (sub_enqueueU o c true v n)⟩
   | errApi => exact ⟨Reach.act .error (Or.inr hop) rfl, hq.sub (Sub.of_eq rfl rfl)⟩
   | tick t =>
     obtain ⟨r, q⟩ := preWrite_ref (cfg := cfg) o t hop hq hT
